@@ -264,13 +264,13 @@ def worker(task, col):
     col.count('mode_' + task.get('mode', 'jit'))
     if task.get('replay'):
         v = task['replay']['violation']
-        check_settings(v['spec'], col, fsel=v.get('factory'), cap=600)
+        common.guard(col, check_settings, v['spec'], col, fsel=v.get('factory'), cap=600)
         return
     if task['shard'] == 0:
         for c in common.corpus('C10'):
-            check_settings(c['spec'], col)
+            common.guard(col, check_settings, c['spec'], col)
     for i in range(task['lo'], task['hi']):
-        check_settings(gen_case(task['seed'], i), col, cap=task.get('cap', 250))
+        common.guard(col, check_settings, gen_case(task['seed'], i), col, cap=task.get('cap', 250))
 
 
 def main(run):
